@@ -284,6 +284,34 @@ func sliceFr(fr *frame, x, lo, hi, max value) value {
 		Cap = cap(a)
 	}
 
+	// Symbolic bounds: first decide (by the solver) whether they can be out of
+	// range -- that path panics like the Go runtime -- then enumerate the
+	// in-range values.
+	if isSym(lo) || isSym(hi) || isSym(max) {
+		limit := int64(Cap)
+		if _, isStr := x.(string); isStr {
+			limit = int64(Len)
+		}
+		if _, isStr := x.(symstr); isStr {
+			limit = int64(Len)
+		}
+		t64 := func(v value, def int64) *Term {
+			if v == nil {
+				return mkBV(uint64(def), 64)
+			}
+			if sv, ok := v.(*Sym); ok {
+				_, sgn := kindBits(sv.Kind)
+				return mkResize(sv.T, 64, sgn)
+			}
+			return mkBV(uint64(asInt64(v)), 64)
+		}
+		lt, ht := t64(lo, 0), t64(hi, int64(Len))
+		mt := t64(max, limit)
+		ok := mkAnd(mkCmp(opBvSLe, mkBV(0, 64), lt), mkCmp(opBvSLe, lt, ht), mkCmp(opBvSLe, ht, mt), mkCmp(opBvSLe, mt, mkBV(uint64(limit), 64)))
+		if !fr.i.run.branch(ok) {
+			panic("runtime error: slice bounds out of range")
+		}
+	}
 	l := int64(0)
 	if lo != nil {
 		l = concInt(fr, lo, "slice low")
@@ -315,6 +343,14 @@ func sliceFr(fr *frame, x, lo, hi, max value) value {
 
 // symIndex makes an index concrete and returns it (bounds are checked natively by the caller's indexing).
 func symIndex(fr *frame, idx value, n int) int64 {
+	if sv, ok := idx.(*Sym); ok {
+		_, sgn := kindBits(sv.Kind)
+		t := mkResize(sv.T, 64, sgn)
+		in := mkAnd(mkCmp(opBvSLe, mkBV(0, 64), t), mkCmp(opBvSLt, t, mkBV(uint64(n), 64)))
+		if !fr.i.run.branch(in) {
+			panic("runtime error: index out of range")
+		}
+	}
 	return concInt(fr, idx, "index")
 }
 
